@@ -165,7 +165,8 @@ def mon (st : St) (op : List String) (outs : List (List String)) : St × List St
   let (st3, replC) := match st2.prev, acct with
     | some p, some q =>
       if (role = "full" ∨ role = "partial") ∧ owed > 0 ∧ logs.isEmpty ∧ q.rem > 0 then
-        let cands := replaceCandidates st2 p q downId (role = "full") owed
+        -- `owed` is printed truncated: the amount the code used lies in [owed, owed + 1)
+        let cands := replaceCandidates st2 p q downId (role = "full") owed ++ replaceCandidates st2 p q downId (role = "full") (owed + 1)
         let near := cands.filter fun c => (c - q.target).natAbs ≤ 2
         let tm := (near.head?).getD ((cands.head?).getD q.target)
         let exp := p.target + st2.drift + owed
